@@ -23,7 +23,6 @@ func groups(gs ...string) map[string]bool {
 	return m
 }
 
-
 var assumeS = []string{"synthetic headers carry no proof of work (difficulty checks disabled through the repository's own switch); cumulative work still derives from each header's bits",
 	"small prune depths reach the prune/reload paths through the verif hooks CleanWithPruneDepth/LoadWithPruneDepth, which call the real clean, prune and load; the small depth is always larger than MaxBranchDepth, as 10000 is larger than 144 in production",
 	"the reference model is independent code (own hashing, own work formula, own merkle trees)",
@@ -36,9 +35,9 @@ func hprop(id, rule string, quick, thorough int, probes []string, faults []strin
 	core.Register(&core.Property{
 		ID: id, Engine: "S", Level: level, Rule: rule,
 		Real: headersReal, Stub: headersStub, Assumptions: assumeS,
-		FaultKinds: append(append([]string{}, netFaults...), faults...),
-		ProbeNames: append(append([]string{}, baseProbes...), probes...),
-		Run:        func(c *core.Ctx) { hw.Run(c, o) },
+		FaultKinds:   append(append([]string{}, netFaults...), faults...),
+		ProbeNames:   append(append([]string{}, baseProbes...), probes...),
+		Run:          func(c *core.Ctx) { hw.Run(c, o) },
 		QuickSeconds: quick, ThoroughSeconds: thorough, MinRuns: 2000, BatchSize: 250,
 	})
 }
